@@ -5,6 +5,7 @@ N2  `R.update(<comp>)` / `R.extend(<comp>)` / `R.update({k: v for ...})` as a st
                                                     ->  the loop that adds / appends / stores each element
 N3  a name bound once to a generator expression and consumed once as the iterable of another comprehension or `for`
                                                     ->  the generator expression is substituted for the name
+N21 `R |= {comp}` / `R += [comp]` / `R = set(<gen>)` / `R = [comp]` over a package walk (`*_iter(...)`) -> loop with add/append
 N4  `for x in (elt for y in it if c): body`          ->  `for y in it: if c: x = elt; body`
 N6  `for x in (a, b): body` (2..4 simple elements, no break/continue/yield, x not re-bound)
                                                     ->  body[x:=a]; body[x:=b]
@@ -478,6 +479,37 @@ class Normalizer:
                     tgt = ast.Subscript(value=copy.deepcopy(recv), slice=a.key, ctx=ast.Store())
                     leaf = ast.Assign(targets=[tgt], value=a.value, type_comment=None)
                     return _comp_to_loop(a.generators, [_loc(leaf, s)], s)
+        # N21: a collection built or grown from a comprehension over a package walk (`*_iter(...)`) as a statement
+        def _comp_of(e):
+            """(comprehension, 'set' | 'list') for {..for..}, [..for..], set(<gen>), list(<gen>)"""
+            if isinstance(e, ast.SetComp):
+                return e, 'set'
+            if isinstance(e, ast.ListComp):
+                return e, 'list'
+            if isinstance(e, ast.Call) and isinstance(e.func, ast.Name) and e.func.id in ('set', 'list') and len(e.args) == 1 and not e.keywords \
+                    and isinstance(e.args[0], (ast.GeneratorExp, ast.ListComp, ast.SetComp)):
+                return e.args[0], e.func.id
+            return None, None
+
+        def _walks(comp):
+            return any(isinstance(c_, ast.Call) and isinstance(c_.func, ast.Attribute) and c_.func.attr.endswith('_iter') for g_ in comp.generators for c_ in ast.walk(g_.iter))
+        if isinstance(s, ast.AugAssign) and isinstance(s.target, (ast.Name, ast.Attribute)) and isinstance(s.op, (ast.BitOr, ast.Add)):
+            comp, kind = _comp_of(s.value)
+            if comp is not None and ((kind == 'set') == isinstance(s.op, ast.BitOr)) and _walks(comp) \
+                    and ast.unparse(s.target) not in {ast.unparse(x) for x in ast.walk(comp) if isinstance(x, (ast.Name, ast.Attribute))}:
+                recv = copy.deepcopy(s.target)
+                for x in ast.walk(recv):
+                    if hasattr(x, 'ctx'):
+                        x.ctx = ast.Load()
+                leaf = ast.Expr(value=ast.Call(func=ast.Attribute(value=recv, attr='add' if kind == 'set' else 'append', ctx=ast.Load()), args=[comp.elt], keywords=[]))
+                return _comp_to_loop(comp.generators, [_loc(leaf, s)], s)
+        if isinstance(s, ast.Assign) and len(s.targets) == 1 and isinstance(s.targets[0], ast.Name):
+            comp, kind = _comp_of(s.value)
+            if comp is not None and _walks(comp) and s.targets[0].id not in {x.id for x in ast.walk(comp) if isinstance(x, ast.Name)}:
+                init = ast.Assign(targets=[s.targets[0]], value=ast.Call(func=ast.Name(id=kind, ctx=ast.Load()), args=[], keywords=[]), type_comment=None)
+                leaf = ast.Expr(value=ast.Call(func=ast.Attribute(value=ast.Name(id=s.targets[0].id, ctx=ast.Load()), attr='add' if kind == 'set' else 'append', ctx=ast.Load()),
+                                               args=[comp.elt], keywords=[]))
+                return [_loc(init, s)] + _comp_to_loop(comp.generators, [_loc(leaf, s)], s)
         # N4
         if isinstance(s, ast.For) and isinstance(s.iter, ast.GeneratorExp) and not s.orelse:
             g = s.iter
